@@ -19,7 +19,7 @@ CLAIMED = {
  "C13": dict(text=GEN + "Partial: civil year/half-year/season/month nesting and month -> days for every year and month (incl. October 1582); lunar year -> months for any leap table (thorough tier). Not covered: lunar month -> days, day -> hour slots, sexagenary month -> days.",
              note="Assumes: SolarDay::next from the 1st of a month replaced by the reference calendar (lemma 13.L; discharged by C01); ENV-A/ENV-L for the lunar part.",
              technique=BMC),
- "C14": dict(text=GEN + "Partial: civil weeks — acceptance, week count, first day, start weekday, coverage, seven consecutive days, week-of-date — for every month/date, every start weekday, one job per weekday of the 1st of the month. Not covered: stepping a week by n, index in year, lunar weeks.",
+ "C14": dict(text=GEN + "Partial: civil weeks — acceptance, week count, first day, start weekday, coverage, seven consecutive days, week-of-date — for every month/date, every start weekday, one job per weekday of the 1st of the month. stepping a civil or lunar week by n (|n| <= 6 / 8) and the first day of a lunar week by engine B. Not covered: index in year, lunar week -> days, week of a lunar date.",
              note="Assumes: day counts relative to the month's 1st (sums of month lengths; discharged by C01) with one concrete representative day count per weekday; small-step SolarDay::next closed form (lemma 14.L); index_of as 32-bit arithmetic (engine B).",
              technique=BMC),
  "C19": dict(text=GEN + "Stem / branch / pillar / star attribute tables are decided over their whole finite domains (symbolic index, Kani) against first-principles encodings written from the classical rules; the eight-character derived signs over all pillar combinations by engine B. Not covered: name-string lookups, Peng Zu texts, 28-mansion land/luck and foetus tables.",
@@ -34,7 +34,7 @@ CLAIMED = {
  "C09": dict(text=GEN + "Partial: hour branch, Five-Rats stem and the 23:00 roll-over on the lunar-hour route for all 60 day pillars x 24 hours (engine B); the instant-level view reports the next day's pillar from 23:00 with the matching hour pillar and switches year/month pillars at the term instants (engine B); refusal of invalid clock fields (Kani). Not covered: the eight-character composition, the inverse search.",
              note="Assumes: the day pillar is an arbitrary pillar here (its value is C07 07.c); object-model axioms A-index, A-pillar, A-name, A-format.",
              technique=ENGB + " + " + BMC),
- "C17": dict(text=GEN + "Partial: six-day star incl. leap months, moon phase, minor Ren, month nine star, 28 mansions (+1 per day, luminary = weekday), day officer, Yellow/Black-path spirits for days and hours — engine B over the real index arithmetic for all inputs. Not covered: flying nine star of year / day / hour.",
+ "C17": dict(text=GEN + "Partial: six-day star incl. leap months, moon phase, minor Ren, month nine star, 28 mansions (+1 per day, luminary = weekday), day officer, Yellow/Black-path spirits for days and hours — engine B over the real index arithmetic for all inputs. flying nine star of the year (three 360-year windows) and of the hour. Not covered: flying nine star of the day.",
              note="Assumes: object-model axioms A-index, A-pillar; weekday and day pillar as functions of the day number from C07.",
              technique=ENGB),
  "C16": dict(text=GEN + "Partial: the seconds -> (years, months, days, hours, minutes) conversions of the Default, China95 and LunarSect2 strategies for every difference up to 32 days, and the calendar addition of AbstractChildLimitProvider::next (clock carries, day overflow through arbitrary month lengths with the loop bound proved, start month, month steps) — engine B on the compiler's MIR with overflow asserts proved. Not covered: forward/backward rule, fortunes, LunarSect1, months with missing days.",
